@@ -9,6 +9,8 @@ import (
 	"bytes"
 	"fmt"
 	"math/rand"
+	"os"
+	"os/exec"
 	"strings"
 	"sync"
 	"testing"
@@ -85,6 +87,23 @@ func TestVerifLicConc(t *testing.T) {
 			rec.nm("lic", lref, q, "", false, fmt.Sprintf("nm|%d", i), fmt.Sprintf("q%d", i))
 		}
 	}()
+	// cold processes: whatever the package builds on first use is built by the first calls of a PROCESS, so the racing first calls are
+	// repeated in six fresh processes (this test binary again; race-instrumented when the check runs the driver under the detector)
+	for rep := 0; rep < 6; rep++ {
+		cmd := exec.Command(os.Args[0], "-test.run=^TestVerifLicCold$", "-test.count=1")
+		cmd.Env = append(os.Environ(), "VERIF_LIC_COLD=1")
+		b, _ := cmd.CombinedOutput()
+		outp := string(b)
+		if i := strings.Index(outp, "WARNING: DATA RACE"); i >= 0 {
+			rec.out.Emit(map[string]interface{}{"ev": "coldrace", "why": "the race detector reports the first concurrent MultipleMatch calls of a process: " + outp[i:lcMin(len(outp), i+1800)]})
+			break
+		}
+		if strings.Contains(outp, "LICCOLD:bad") {
+			i := strings.Index(outp, "LICCOLD:bad")
+			rec.out.Emit(map[string]interface{}{"ev": "coldrace", "why": "first concurrent calls of a process: " + outp[i:lcMin(len(outp), i+300)]})
+			break
+		}
+	}
 	// the very first calls of this process: many callers, the same short text, finishing at the same moment
 	{
 		l0 := load()
@@ -121,4 +140,52 @@ func TestVerifLicConc(t *testing.T) {
 		}
 		wg.Wait()
 	}
+}
+
+// TestVerifLicCold: helper of TestVerifLicConc, run in a process of its own: the first MultipleMatch calls of the process are
+// sixteen concurrent calls, released together, on texts of forbidden licenses as shipped (they are reported, so everything that
+// is consulted about a reported license is consulted by racing first calls).
+func TestVerifLicCold(t *testing.T) {
+	if os.Getenv("VERIF_LIC_COLD") == "" {
+		t.Skip("helper of TestVerifLicConc")
+	}
+	var abuf bytes.Buffer
+	files := []string{"WTFPL.txt", "CC-BY-NC-1.0.txt", "MIT.txt"}
+	if err := ArchiveLicenses(files, &abuf); err != nil {
+		t.Fatal(err)
+	}
+	l, err := licenseclassifier.New(licenseclassifier.DefaultConfidenceThreshold, licenseclassifier.ArchiveBytes(abuf.Bytes()))
+	if err != nil {
+		t.Fatal(err)
+	}
+	texts := []string{lcRead("WTFPL.txt"), lcRead("CC-BY-NC-1.0.txt")}
+	names := []string{"WTFPL", "CC-BY-NC-1.0"}
+	start := make(chan struct{})
+	var wg sync.WaitGroup
+	res := make([]string, 16)
+	for g := 0; g < 16; g++ {
+		wg.Add(1)
+		go func(g int) {
+			defer wg.Done()
+			<-start
+			ms := l.MultipleMatch(texts[g%2], true)
+			if len(ms) != 1 || ms[0].Name != names[g%2] || ms[0].Confidence != 1.0 {
+				res[g] = fmt.Sprintf("LICCOLD:bad call %d on %s: %d matches %v", g, names[g%2], len(ms), ms)
+			} else {
+				res[g] = "LICCOLD:ok"
+			}
+		}(g)
+	}
+	close(start)
+	wg.Wait()
+	for _, r := range res {
+		fmt.Println(r)
+	}
+}
+
+func lcMin(a, b int) int {
+	if a < b {
+		return a
+	}
+	return b
 }
